@@ -96,19 +96,23 @@ impl Harness for C14 {
         }
         props.push(p.unwrap());
       }
-      // tap acts for every subscription: its side log grows by the same amount each time
-      if side_logs.len() >= 2 {
-        let d0 = side_logs[0];
-        for j in 1..side_logs.len() {
-          if side_logs[j] != d0 * (j + 1) {
-            return Verdict {
-              prop: None,
-              structural: Some(format!("tap side effects per subscription: cumulative {:?} [{}] in={}", side_logs, sig, input)),
-              sample: String::new(),
-              signature: format!("{};role=tap-side-effects", sig),
-              nontrivial: true,
-              detail: vec![],
-            };
+      // tap acts for every subscription: each tap's side log grows by the same amount each time
+      let taps = built.insts.iter().filter(|i| i.side.is_some()).count();
+      if taps >= 1 {
+        for t in 0..taps {
+          let mine: Vec<usize> = side_logs.iter().skip(t).step_by(taps).copied().collect();
+          let d0 = mine[0];
+          for j in 1..mine.len() {
+            if mine[j] != d0 * (j + 1) {
+              return Verdict {
+                prop: None,
+                structural: Some(format!("tap #{} side effects per subscription: cumulative {:?} [{}] in={}", t, mine, sig, input)),
+                sample: String::new(),
+                signature: format!("{};role=tap-side-effects", sig),
+                nontrivial: true,
+                detail: vec![],
+              };
+            }
           }
         }
       }
